@@ -3,6 +3,7 @@ package main
 import (
 	"fmt"
 	"math/big"
+	"sort"
 	"strings"
 	"time"
 
@@ -18,15 +19,26 @@ import (
 // agree byte for byte; a structurally valid, sufficiently signed, fresher update must be
 // accepted whatever the wall clock says (C18:depends-on-wall-clock).
 
-// an update in which every member of the stored host set votes honestly at logical time ts
-func c18HonestOracleOp(g *c15Gen, ts int64) C15Op {
+// an update in which every member of the stored host set votes honestly at logical time ts on
+// exactly the given pairs (index 0 = the reserved timestamp pair) plus the given raw extra ids
+func c18HonestOracleOp(g *c15Gen, ts int64, pairs []int, extraIDs []uint64, note string) C15Op {
 	ce := g.ce
-	o := C15Op{Kind: "oracle", Blk: g.blk, SenderID: 1, Sender: ce.E.User(1).Str, Height: uint64(g.setH + 1), Round: 0, Note: "c18-honest"}
-	g.jitter = 0
+	o := C15Op{Kind: "oracle", Blk: g.blk, SenderID: 1, Sender: ce.E.User(1).Str, Height: uint64(g.setH + 1), Round: 0, Note: note}
 	var votes []C15Vote
 	for _, en := range g.inSet {
 		u := ce.Vals[en.Val]
-		ext := ce.encodeExt(g.priceMap(ts, 0))
+		m := map[uint64][]byte{}
+		for _, p := range pairs {
+			val := big.NewInt(ts)
+			if p != 0 {
+				val = big.NewInt(g.price[p] + int64(g.r.Intn(7)) - 3)
+			}
+			m[c15PairHash(c15PairNames[p])] = c15EncodePrice(val)
+		}
+		for _, id := range extraIDs {
+			m[id] = c15EncodePrice(big.NewInt(77))
+		}
+		ext := ce.encodeExt(m)
 		votes = append(votes, C15Vote{Addr: u.Addr, Flag: int32(cmtproto.BlockIDFlagCommit), Ext: ext,
 			Sig: ce.sign(u, ce.Chain, int64(o.Height)-1, 0, ext)})
 	}
@@ -44,23 +56,30 @@ func c18HonestOracleOp(g *c15Gen, ts int64) C15Op {
 	return o
 }
 
+var c18AllPairs = []int{0, 1, 2, 3} // the pairs every oracle history creates (NEVER/USD, index 4, is never created)
+
 type c18OracleHistory struct {
 	family string
 	seed   uint64
 	nVals  int
 	ops    []C15Op
 	valid  []bool // a fresher, fully signed, well-formed update: must be accepted
+	unkn   []bool // some vote extension carries a price id that is not a pair of the oracle store
 	genOK  []bool
 	passBy int64 // unix ns after which the "now" family's timestamps lie in the past
 }
 
-func c18GenOracle(seed uint64, id int, family string, base int64, nOps int) *c18OracleHistory {
+func c18GenOracle(seed uint64, id int, family string, base int64, nOps int, mode string) *c18OracleHistory {
 	r := NewRng(seed ^ 0x0c18)
 	nVals := 3 + r.Intn(3)
 	ce := newC15Env(seed, id, nVals)
 	scratch := NewReport("C18-oracle-generation", seed, "quick") // the C15 monitors are not this stream's subject
 	g := &c15Gen{ce: ce, r: r, profile: 0, tsNext: base, lastTS: base - 5000, blk: 10, price: []int64{0, 6500000, 320000, 900, 5}}
 	h := &c18OracleHistory{family: family, seed: seed, nVals: nVals}
+	known := map[uint64]bool{}
+	for _, p := range c18AllPairs {
+		known[c15PairHash(c15PairNames[p])] = true
+	}
 	do := func(o C15Op, valid bool) bool {
 		o.Blk = g.blk
 		g.blk++
@@ -68,6 +87,15 @@ func c18GenOracle(seed uint64, id int, family string, base int64, nOps int) *c18
 		ok := ce.Do(o, scratch)
 		h.valid = append(h.valid, valid)
 		h.genOK = append(h.genOK, ok)
+		unk := false
+		for _, v := range o.Votes {
+			if ve, err := ce.VeCodec.Decode(v.Ext); err == nil {
+				for _, id := range sortedU64Keys(ve.Prices) {
+					unk = unk || !known[id]
+				}
+			}
+		}
+		h.unkn = append(h.unkn, unk)
 		if ok && o.Kind == "oracle" {
 			after := ce.readState()
 			if after.Quotes[0].Has && (!before.Quotes[0].Has || after.Quotes[0].TS != before.Quotes[0].TS) {
@@ -78,7 +106,7 @@ func c18GenOracle(seed uint64, id int, family string, base int64, nOps int) *c18
 	}
 	do(C15Op{Kind: "execs", Execs: []uint64{1, 2}}, false)
 	do(C15Op{Kind: "info", Oracle: true, Chain: "l1chain", Client: "07-tendermint-0", ClientID: 1}, false)
-	for _, p := range []int{0, 1, 2} {
+	for _, p := range c18AllPairs {
 		do(C15Op{Kind: "mkpair", Pair: p}, false)
 	}
 	var entries []c15Entry
@@ -90,16 +118,44 @@ func c18GenOracle(seed uint64, id int, family string, base int64, nOps int) *c18
 		panic("c18 oracle: host validator set refused")
 	}
 	g.applySet(first)
+	fresh := func() int64 { g.tsNext += 1000 + int64(r.Intn(1000)); return g.tsNext }
 	for i := 0; i < nOps; i++ {
-		switch r.Weighted([]int{60, 22, 10, 8}) {
-		case 0: // honest and fresher than everything before
-			g.tsNext += 1000 + int64(r.Intn(1000))
-			do(c18HonestOracleOp(g, g.tsNext), true)
-		case 1: // the C15 generator's mix (wrong senders, heights, replays, perturbed votes ...)
+		switch mode {
+		case "unknown-ids": // known-finding replay A
+			do(c18HonestOracleOp(g, fresh(), []int{0, 1, 2, 3, 4}, []uint64{r.U64(), r.U64()}, "c18-honest-with-unknown-ids"), true)
+			continue
+		case "all-known": // known-finding replay B
+			do(c18HonestOracleOp(g, fresh(), c18AllPairs, nil, "c18-honest"), true)
+			continue
+		}
+		switch r.Weighted([]int{40, 16, 14, 8, 8, 8, 6}) {
+		case 0: // honest, all created pairs, fresher than everything before
+			do(c18HonestOracleOp(g, fresh(), c18AllPairs, nil, "c18-honest"), true)
+		case 1:
+			// the validators report only a subset of the pairs ...
+			sub := []int{0}
+			for _, p := range []int{1, 2, 3} {
+				if r.Chance(45) {
+					sub = append(sub, p)
+				}
+			}
+			if len(sub) == 4 {
+				sub = sub[:3]
+			}
+			ts := fresh()
+			do(c18HonestOracleOp(g, ts, sub, nil, fmt.Sprintf("c18-honest-subset%v", sub)), true)
+			// ... and a later update over all pairs arrives with the same (non-increasing) L1 timestamp:
+			// stale for the subset, writable for the others; must be refused, identically everywhere
+			if r.Chance(85) {
+				do(c18HonestOracleOp(g, ts-int64(r.Intn(2)), c18AllPairs, nil, "c18-replay-over-all-pairs"), false)
+			}
+		case 2: // the C15 generator's mix (wrong senders, heights, replays, perturbed votes, unknown ids ...)
 			do(g.oracleOp(), false)
-		case 2: // an honest replay of the last accepted timestamp: must be refused everywhere
-			do(c18HonestOracleOp(g, g.lastTS), false)
-		case 3: // refresh of the host validator set
+		case 3: // honest and fresh, but the extensions also carry ids that are not pairs of the store
+			do(c18HonestOracleOp(g, fresh(), []int{0, 1, 2, 3, 4}, []uint64{r.U64()}, "c18-honest-with-unknown-ids"), true)
+		case 4: // an honest replay of the last accepted timestamp: must be refused everywhere
+			do(c18HonestOracleOp(g, g.lastTS, c18AllPairs, nil, "c18-replay"), false)
+		case 5: // refresh of the host validator set
 			var en []c15Entry
 			for i := 0; i < nVals; i++ {
 				en = append(en, c15Entry{Val: i, Power: int64(1 + r.Intn(10))})
@@ -108,6 +164,7 @@ func c18GenOracle(seed uint64, id int, family string, base int64, nOps int) *c18
 			if do(o, false) {
 				g.applySet(o)
 			}
+		case 6:
 		}
 	}
 	h.ops = ce.Ops
@@ -157,9 +214,15 @@ func (h *c18OracleHistory) execute(id int, spec []int, rep *Report) []c18Print {
 				rep.Hist("oracle:speculated")
 			}
 		}
+		freshGasL2(ce.E)
 		res := ce.exec(o)
 		out = append(out, printOf(res, ce.E.Ctx, ce.E.Keys))
 	}
+	return out
+}
+
+func (h *c18OracleHistory) executeOnOwnGoroutine(id int, spec []int, rep *Report) (out []c18Print) {
+	onOwnGoroutine(func() { out = h.execute(id, spec, rep) })
 	return out
 }
 
@@ -185,7 +248,7 @@ func genC18Oracle(rep *Report, seed uint64, tier string, R int, id *int) {
 		for k := 0; k < fam.n; k++ {
 			*id++
 			base := fam.base()
-			h := c18GenOracle(seed*1000+uint64(7000+100*fi+k), *id, fam.name, base, nOps)
+			h := c18GenOracle(seed*1000+uint64(7000+100*fi+k), *id, fam.name, base, nOps, "")
 			human := h.human(base)
 			human = append([]string{"oracle family: " + fam.name + "; timestamps are given relative to base"}, human...)
 			runs := make([][]c18Print, R)
@@ -196,17 +259,30 @@ func genC18Oracle(rep *Report, seed uint64, tier string, R int, id *int) {
 						time.Sleep(d)
 					}
 				}
-				runs[x] = h.execute(*id, nil, rep)
+				runs[x] = h.executeOnOwnGoroutine(*id, nil, rep)
 			}
 			pad := func(ps []c18Print) []c18Print { return append([]c18Print{{OK: true}}, ps...) } // human has a header line
 			padded := make([][]c18Print, R)
 			for x := range runs {
 				padded[x] = pad(runs[x])
 			}
-			if c18Compare(rep, *id, "oracle", padded, human) {
+			known := func(step int, d string, speculated bool) string {
+				i := step - 1 // the human history has a header line
+				if d != "gas" || i < 0 || h.ops[i].Kind != "oracle" {
+					return ""
+				}
+				if speculated {
+					return c18SigOracleGasHistory
+				}
+				if h.unkn[i] {
+					return c18SigOracleGasMapOrder
+				}
+				return ""
+			}
+			if c18Compare(rep, *id, "oracle", padded, human, known) {
 				plan := c18SpecPlan(NewRng(h.seed^0x5bec), len(h.ops), func(i int) bool { return h.ops[i].Kind == "oracle" && i%2 == 0 }, nil)
-				spec := h.execute(*id, plan, rep)
-				c18CompareSpec(rep, *id, "oracle", padded[R-1], pad(spec), human, append([]int{0}, plan...))
+				spec := h.executeOnOwnGoroutine(*id, plan, rep)
+				c18CompareSpec(rep, *id, "oracle", padded[R-1], pad(spec), human, append([]int{0}, plan...), known)
 			}
 			// expectation independent of the implementation's answer
 			ok, bad := false, false
@@ -248,6 +324,84 @@ func genC18Oracle(rep *Report, seed uint64, tier string, R int, id *int) {
 			}
 		}
 	}
+	c18KnownOracleGas(rep, seed, id)
 	rep.Notes = append(rep.Notes, fmt.Sprintf("oracle family: %d histories with L1 timestamps in 2001, %d in 2200, %d at wall clock + 1.5 s (last execution after that instant); %d oracle updates accepted in the first executions",
 		nPast, nFuture, nNow, accepted))
+}
+
+// ---- known findings of the oracle path (known_findings.json), replayed on every run ----
+const (
+	c18SigOracleGasMapOrder = "C18:oracle-gas-unknown-pair-map-order"
+	c18SigOracleGasHistory  = "C18:oracle-gas-idcache-process-history"
+)
+
+func sortedU64Keys(m map[uint64][]byte) []uint64 {
+	ks := make([]uint64, 0, len(m))
+	for k := range m {
+		ks = append(ks, k)
+	}
+	sort.Slice(ks, func(i, j int) bool { return ks[i] < ks[j] })
+	return ks
+}
+
+// A: votes that carry price ids unknown to the oracle store; B: every update pre-executed once on a
+// discarded branch at the same height.  Both change only the GAS of MsgUpdateOracle (the id cache of
+// connect's HashCurrencyPairStrategy, held by the L2OracleHandler in process memory and reset per
+// block height, decides how often GetAllCurrencyPairs is walked).
+func c18KnownOracleGas(rep *Report, seed uint64, id *int) {
+	base := int64(1000000000000000000)
+	{
+		*id++
+		h := c18GenOracle(seed*1000+7901, *id, "known finding A", base, 5, "unknown-ids")
+		var runs [][]c18Print
+		for x := 0; x < 6; x++ {
+			runs = append(runs, h.executeOnOwnGoroutine(*id, nil, rep))
+		}
+		fails, other := false, false
+		for x := 1; x < len(runs); x++ {
+			for i := range runs[0] {
+				switch d := runs[0][i].diff(runs[x][i]); d {
+				case "":
+				case "gas":
+					fails = true
+				default:
+					other = true
+				}
+			}
+		}
+		if other {
+			rep.Violate(Violation{Case: *id, Step: 0, What: "replay of known finding A differs in more than gas", Sig: "C18:nondeterministic-oracle", Ops: h.human(base)})
+		}
+		rep.KnownChecked = append(rep.KnownChecked, KnownResult{ID: c18SigOracleGasMapOrder, StillFails: fails,
+			What: "5 well-formed oracle updates whose vote extensions carry ids of pairs that are not in the oracle store, executed 6 times on fresh instances: gas used differs between executions"})
+		rep.Ops += len(h.ops) * 6
+	}
+	{
+		*id++
+		h := c18GenOracle(seed*1000+7902, *id, "known finding B", base, 4, "all-known")
+		plain := h.executeOnOwnGoroutine(*id, nil, rep)
+		plan := make([]int, len(h.ops))
+		for i, o := range h.ops {
+			if o.Kind == "oracle" {
+				plan[i] = 1
+			}
+		}
+		spec := h.executeOnOwnGoroutine(*id, plan, rep)
+		fails, other := false, false
+		for i := range plain {
+			switch d := plain[i].diff(spec[i]); d {
+			case "":
+			case "gas":
+				fails = true
+			default:
+				other = true
+			}
+		}
+		if other {
+			rep.Violate(Violation{Case: *id, Step: 0, What: "replay of known finding B differs in more than gas", Sig: "C18:depends-on-process-history", Ops: h.human(base)})
+		}
+		rep.KnownChecked = append(rep.KnownChecked, KnownResult{ID: c18SigOracleGasHistory, StillFails: fails,
+			What: "4 well-formed oracle updates, each first executed once on a discarded cache branch at the same height: the real execution uses less gas than on an instance without the discarded execution"})
+		rep.Ops += len(h.ops) * 2
+	}
 }
